@@ -15,7 +15,8 @@ c = contract('lentil.helper.mesh')
 
 def _mesh_params(ctx):
     nr, nc = shape2(ctx, 'shape')
-    return {'shape': (nr, nc), 'shift': (ctx.fresh_real('shift0'), ctx.fresh_real('shift1')), 'angle': 0}
+    angle = 0 if ctx.branch(ctx.fresh_bool('angle_is_zero')) else ctx.fresh_real('angle')
+    return {'shape': (nr, nc), 'shift': (ctx.fresh_real('shift0'), ctx.fresh_real('shift1')), 'angle': angle}
 
 
 def mesh_model(ctx, env):
@@ -24,11 +25,18 @@ def mesh_model(ctx, env):
     nr, nc = elems(ctx, env['shape'])[:2]
     s0, s1 = elems(ctx, env.get('shift', (0, 0)))
     angle = env.get('angle', 0)
-    if not (S.is_concrete(angle) and S.is_zero(angle)):
-        raise S.Unsupported('mesh model: rotated mesh')
-    rr = Arr.from_fn((nr, nc), 'float', lambda idx: S.to_real(S.sub(S.sub(idx[0], S.floordiv(nr, 2)), s0)))
-    cc = Arr.from_fn((nr, nc), 'float', lambda idx: S.to_real(S.sub(S.sub(idx[1], S.floordiv(nc, 2)), s1)))
-    return (rr, cc)
+    base_r = lambda idx: S.to_real(S.sub(S.sub(idx[0], S.floordiv(nr, 2)), s0))
+    base_c = lambda idx: S.to_real(S.sub(S.sub(idx[1], S.floordiv(nc, 2)), s1))
+    if S.is_concrete(angle) and S.is_zero(angle):
+        return (Arr.from_fn((nr, nc), 'float', base_r), Arr.from_fn((nr, nc), 'float', base_c))
+    # rotation by `angle` degrees applied to the *shifted* coordinates (the shift is a translation of
+    # the drawn shape in array coordinates, whatever the rotation)
+    from lvc import nplib as L
+    a = S.truediv(S.mul(angle, L.PI), 180)
+    co, si = L.cos_scalar(ctx, a), L.sin_scalar(ctx, a)
+    r = Arr.from_fn((nr, nc), 'float', lambda idx: S.add(S.mul(base_r(idx), co), S.mul(base_c(idx), si)))
+    c = Arr.from_fn((nr, nc), 'float', lambda idx: S.add(S.mul(base_r(idx), S.neg(si)), S.mul(base_c(idx), co)))
+    return (r, c)
 
 
 c.params = _mesh_params
@@ -41,6 +49,8 @@ def _(ctx, env0, env, out):
     rr, cc = out.value
     i, j = ints(ctx, 'i', 'j')
     s0, s1 = env0['shift']
+    if not (S.is_concrete(env0['angle']) and S.is_zero(env0['angle'])):
+        return None
     return z3.Implies(z3.And(i >= 0, i < nr, j >= 0, j < nc),
                       z3.And(S.z(S.eq(rr.at((i, j)), S.sub(S.sub(i, S.floordiv(nr, 2)), s0))),
                              S.z(S.eq(cc.at((i, j)), S.sub(S.sub(j, S.floordiv(nc, 2)), s1)))))
